@@ -213,10 +213,11 @@ impl<F> FnGraph<F> {
         }
 
         stream::poll_fn(move |context| {
-            match fn_done_rx.poll_recv(context) {
-                Poll::Pending => {}
-                Poll::Ready(None) => {}
-                Poll::Ready(Some(fn_id)) => graph_structure
+            // Process every queued notification, not just one: this only stops when the
+            // channel returns `Poll::Pending` -- which registers the waker, so a later
+            // `FnRef` drop wakes this task -- or when it is closed.
+            while let Poll::Ready(Some(fn_id)) = fn_done_rx.poll_recv(context) {
+                graph_structure
                     .children(fn_id)
                     .iter(graph_structure)
                     .for_each(|(_edge_id, child_fn_id)| {
@@ -228,7 +229,7 @@ impl<F> FnGraph<F> {
                                 let _ = fn_ready_tx.try_send(child_fn_id);
                             }
                         }
-                    }),
+                    });
             }
 
             let poll = if let Some(fn_done_tx) = fn_done_tx.as_ref() {
